@@ -7,7 +7,7 @@ use crate::unit_registry::UnitRegistry;
 use compact_str::{CompactString, ToCompactString, format_compact};
 use itertools::Itertools;
 use num_rational::Ratio;
-use num_traits::{FromPrimitive, Zero};
+use num_traits::{CheckedMul, FromPrimitive, Zero};
 use pretty_dtoa::FmtFloatConfig;
 use thiserror::Error;
 
@@ -18,6 +18,9 @@ pub enum QuantityError {
 
     #[error("Non-rational exponent")]
     NonRationalExponent,
+
+    #[error("Overflow in the computation of a unit exponent")]
+    ExponentOverflow,
 }
 
 pub type Result<T> = std::result::Result<T, QuantityError>;
@@ -349,12 +352,21 @@ impl Quantity {
         if exponent_as_scalar < 0.0 && self.is_zero() {
             Ok(None)
         } else {
+            let exponent =
+                Rational::from_f64(exponent_as_scalar).ok_or(QuantityError::NonRationalExponent)?;
+
+            // Unit exponents are i128 rationals and `Unit::power` multiplies them unchecked
+            if self
+                .unit
+                .iter()
+                .any(|factor| factor.exponent.checked_mul(&exponent).is_none())
+            {
+                return Err(QuantityError::ExponentOverflow);
+            }
+
             Ok(Some(Quantity::new_f64(
                 self.value.to_f64().powf(exponent_as_scalar),
-                self.unit.power(
-                    Rational::from_f64(exponent_as_scalar)
-                        .ok_or(QuantityError::NonRationalExponent)?,
-                ),
+                self.unit.power(exponent),
             )))
         }
     }
